@@ -1205,20 +1205,7 @@ class GrammarBuilder:
         if path_node.data == 'import_lib':  # Import from library
             base_path = None
         else:  # Relative import
-            if grammar_name == '<string>':  # Import relative to script file path if grammar is coded in script
-                try:
-                    base_file = os.path.abspath(sys.modules['__main__'].__file__)
-                except AttributeError:
-                    base_file = None
-            else:
-                base_file = grammar_name  # Import relative to grammar file path if external grammar file
-            if base_file:
-                if isinstance(base_file, PackageResource):
-                    base_path = PackageResource(base_file.pkg_name, os.path.split(base_file.path)[0])
-                else:
-                    base_path = os.path.split(base_file)[0]
-            else:
-                base_path = os.path.abspath(os.path.curdir)
+            base_path = relative_import_base_path(grammar_name)
 
         return dotted_path, base_path, aliases
 
@@ -1392,6 +1379,24 @@ class GrammarBuilder:
                 rule_defs.append((name, params, exp, options))
         # resolve_term_references(term_defs)
         return Grammar(rule_defs, term_defs, self._ignore_names)
+
+
+def relative_import_base_path(grammar_name):
+    """Returns the path that relative imports (``%import .x``) of the given grammar are resolved against"""
+    if grammar_name == '<string>':  # Import relative to script file path if grammar is coded in script
+        try:
+            base_file = os.path.abspath(sys.modules['__main__'].__file__)
+        except AttributeError:
+            base_file = None
+    else:
+        base_file = grammar_name  # Import relative to grammar file path if external grammar file
+    if base_file:
+        if isinstance(base_file, PackageResource):
+            return PackageResource(base_file.pkg_name, os.path.split(base_file.path)[0])
+        else:
+            return os.path.split(base_file)[0]
+    else:
+        return os.path.abspath(os.path.curdir)
 
 
 def verify_used_files(file_hashes):
